@@ -18,6 +18,7 @@
   `Spec/Bridge.lean` (fully proved).
 -/
 import PomerolModel.Spec.Bridge
+import PomerolModel.Spec.Chi4Refine
 
 namespace Pomerol.Properties.C02
 open Matrix Complex Pomerol Pomerol.Spec
@@ -112,5 +113,146 @@ first two operators, with sign −1. -/
 example : Gen.Chi4.permutations3[2]? = some ([1, 0, 2], -1) := by
   rw [permutation_table.1]
   rfl
+
+/-! ### the loop structure of `TwoParticleGFPart::compute` (sparse world-line enumeration) -/
+
+section enumeration
+open Pomerol.Model.Chi4Part Pomerol.Spec.Chi4Refine
+
+/-- THE SPARSE ENUMERATION LOSES NOTHING AND ADDS NOTHING.
+In plain words: `TwoParticleGFPart::compute` does not loop over all quadruples of eigenstates.  It fixes
+`index1` and `index3`, walks the sparse column `index1` of CX4 against the sparse row `index3` of O3 to
+collect the common `index4`, then walks the sparse row `index1` of O1 against the sparse column `index3`
+of O2 to find the common `index2` ("index chasing"), and hands
+`<1|O1|2><2|O2|3><3|O3|4><4|CX4|1>` to `addMultiterm` for every world line found this way.
+This theorem says: whenever the four compressed matrices are faithful copies of dense matrices
+(`RowMajorOf`/`ColMajorOf`: strictly increasing inner indices, a stored value is the matrix entry, an
+entry that is not stored is 0), the enumeration (model `Model/Chi4Part.lean`, run with the loop guards
+extracted from the source, no weight cut-off) succeeds, and for EVERY weight function `g` the sum over the
+visited world lines of `g(i1,i2,i3,i4) · (product of the four values read)` equals the sum over ALL
+quadruples of `g · O1 i1 i2 · O2 i2 i3 · O3 i3 i4 · CX4 i4 i1`.  No world line with a non-zero product is
+missed, none is visited twice.  (Taking `g` = the multi-term of the four levels gives the per-ordering
+Lehmann sum `orderedLehmann` of `ordered_simplex`: see `sparse_enumeration_is_ordered_lehmann`.) -/
+theorem sparse_enumeration_is_full_sum {n1 n2 n3 n4 : ℕ}
+    (A1 : Matrix (Fin n1) (Fin n2) ℂ) (A2 : Matrix (Fin n2) (Fin n3) ℂ)
+    (A3 : Matrix (Fin n3) (Fin n4) ℂ) (X4 : Matrix (Fin n4) (Fin n1) ℂ)
+    (O1 O2 O3 CX4 : SpMat ℂ) (h1 : RowMajorOf O1 A1) (h2 : ColMajorOf O2 A2)
+    (h3 : RowMajorOf O3 A3) (h4 : ColMajorOf CX4 X4) (g : ℕ → ℕ → ℕ → ℕ → ℂ) :
+    ∃ wls, computeAsSource (fun _ _ _ _ => true) O1 O2 O3 CX4 = .ok wls ∧
+      (wls.map fun wl => g wl.1 wl.2.1 wl.2.2.1 wl.2.2.2.1 * wl.2.2.2.2).sum
+        = ∑ i1 : Fin n1, ∑ i2 : Fin n2, ∑ i3 : Fin n3, ∑ i4 : Fin n4,
+            g i1 i2 i3 i4 * A1 i1 i2 * A2 i2 i3 * A3 i3 i4 * X4 i4 i1 :=
+  chi4part_sum_eq_full_sum A1 A2 A3 X4 O1 O2 O3 CX4 h1 h2 h3 h4 g
+
+/-- WHICH world lines are visited, and each exactly once: for compressed matrices with strictly
+increasing inner indices and matching outer sizes the enumeration returns exactly the list
+`worldLinesSpec` (all `(i1,i2,i3,i4)` whose four entries are stored and which pass the weight test
+`keep`, with the product of the four stored values), in which no index quadruple occurs twice. -/
+theorem sparse_enumeration_visits_stored_quadruples_once (keep : ℕ → ℕ → ℕ → ℕ → Bool)
+    (O1 O2 O3 CX4 : SpMat ℂ) (h1 : SortedMat O1) (h2 : SortedMat O2) (h3 : SortedMat O3)
+    (h4 : SortedMat CX4) (hrows1 : O1.length = CX4.length) (hrows3 : O3.length = O2.length) :
+    computeAsSource keep O1 O2 O3 CX4 = .ok (worldLinesSpec keep O1 O2 O3 CX4) ∧
+    ((worldLinesSpec keep O1 O2 O3 CX4).map quad).Nodup ∧
+    ∀ wl, wl ∈ worldLinesSpec keep O1 O2 O3 CX4 ↔
+      ∃ i1 i2 i3 i4 v1 v2 v3 v4, (i2, v1) ∈ vec O1 i1 ∧ (i2, v2) ∈ vec O2 i3 ∧ (i4, v3) ∈ vec O3 i3 ∧
+        (i4, v4) ∈ vec CX4 i1 ∧ keep i1 i2 i3 i4 = true ∧ wl = (i1, i2, i3, i4, v1 * v2 * v3 * v4) :=
+  ⟨chi4part_worldlines_source keep O1 O2 O3 CX4 h1 h2 h3 h4 hrows1 hrows3,
+   worldLinesSpec_quad_nodup keep O1 O2 O3 CX4 h1 h3,
+   mem_worldLinesSpec_iff keep O1 O2 O3 CX4 h1 h2 h3 h4⟩
+
+/-- The enumeration refines the per-ordering Lehmann sum: with the state space split into blocks and every
+operator stored block by block, the sum over all quadruples of blocks of what the parts accumulate
+(`partValue`: visited world lines, matrix-element product times the multi-term of the four levels) is
+`orderedLehmann`, the quantity `ordered_simplex` identifies with the ordered triple integral. -/
+theorem sparse_enumeration_is_ordered_lehmann {B : Type} [Fintype B] {sz : B → ℕ}
+    (d : EigenData (Σ b, Fin (sz b)))
+    (A Bm Cc X : Matrix (Σ b, Fin (sz b)) (Σ b, Fin (sz b)) ℂ) (O1 O2 O3 CX4 : B → B → SpMat ℂ)
+    (h1 : ∀ b b', RowMajorOf (O1 b b') (blockOf A b b'))
+    (h2 : ∀ b b', ColMajorOf (O2 b b') (blockOf Bm b b'))
+    (h3 : ∀ b b', RowMajorOf (O3 b b') (blockOf Cc b b'))
+    (h4 : ∀ b b', ColMajorOf (CX4 b b') (blockOf X b b')) (za zb zc : ℂ) :
+    ∑ b1, ∑ b2, ∑ b3, ∑ b4,
+        partValue d za zb zc b1 b2 b3 b4 (O1 b1 b2) (O2 b2 b3) (O3 b3 b4) (CX4 b4 b1)
+      = d.orderedLehmann A Bm Cc X za zb zc :=
+  parts_enumeration_refines_ordered_lehmann d A Bm Cc X O1 O2 O3 CX4 h1 h2 h3 h4 za zb zc
+
+/-! a concrete instance with 2 states per block: `O1 = [[1,2],[0,3]]`, `O2 = [[5,7],[0,11]]`,
+`O3 = [[0,13],[17,19]]`, `CX4 = [[23,0],[29,31]]`; 6 of the 16 quadruples have all four entries stored -/
+
+private def exO1 : SpMat ℂ := [[(0, 1), (1, 2)], [(1, 3)]]          -- rows of O1
+private def exO2 : SpMat ℂ := [[(0, 5)], [(0, 7), (1, 11)]]         -- columns of O2
+private def exO3 : SpMat ℂ := [[(1, 13)], [(0, 17), (1, 19)]]       -- rows of O3
+private def exX4 : SpMat ℂ := [[(0, 23), (1, 29)], [(1, 31)]]       -- columns of CX4
+private def exA1 : Matrix (Fin 2) (Fin 2) ℂ := fun i j => ![![1, 2], ![0, 3]] i j
+private def exA2 : Matrix (Fin 2) (Fin 2) ℂ := fun i j => ![![5, 7], ![0, 11]] i j
+private def exA3 : Matrix (Fin 2) (Fin 2) ℂ := fun i j => ![![0, 13], ![17, 19]] i j
+private def exAX : Matrix (Fin 2) (Fin 2) ℂ := fun i j => ![![23, 0], ![29, 31]] i j
+
+private theorem ex_h1 : RowMajorOf exO1 exA1 := by
+  refine ⟨rfl, ?_, ?_, ?_⟩
+  · intro v hv
+    simp only [exO1, List.mem_cons, List.not_mem_nil, or_false] at hv
+    rcases hv with rfl | rfl <;> simp [SortedVec, Pomerol.Properties.C17.Sorted, storedIdx]
+  · intro v hv i hi
+    simp only [exO1, List.mem_cons, List.not_mem_nil, or_false] at hv
+    rcases hv with rfl | rfl <;> simp [storedIdx] at hi <;> omega
+  · intro i j
+    fin_cases i <;> fin_cases j <;> simp [exA1, exO1, vec, coeffIn, List.lookup]
+
+private theorem ex_h2 : ColMajorOf exO2 exA2 := by
+  refine ⟨rfl, ?_, ?_, ?_⟩
+  · intro v hv
+    simp only [exO2, List.mem_cons, List.not_mem_nil, or_false] at hv
+    rcases hv with rfl | rfl <;> simp [SortedVec, Pomerol.Properties.C17.Sorted, storedIdx]
+  · intro v hv i hi
+    simp only [exO2, List.mem_cons, List.not_mem_nil, or_false] at hv
+    rcases hv with rfl | rfl <;> simp [storedIdx] at hi <;> omega
+  · intro i j
+    fin_cases i <;> fin_cases j <;> simp [exA2, exO2, vec, coeffIn, List.lookup]
+
+private theorem ex_h3 : RowMajorOf exO3 exA3 := by
+  refine ⟨rfl, ?_, ?_, ?_⟩
+  · intro v hv
+    simp only [exO3, List.mem_cons, List.not_mem_nil, or_false] at hv
+    rcases hv with rfl | rfl <;> simp [SortedVec, Pomerol.Properties.C17.Sorted, storedIdx]
+  · intro v hv i hi
+    simp only [exO3, List.mem_cons, List.not_mem_nil, or_false] at hv
+    rcases hv with rfl | rfl <;> simp [storedIdx] at hi <;> omega
+  · intro i j
+    fin_cases i <;> fin_cases j <;> simp [exA3, exO3, vec, coeffIn, List.lookup]
+
+private theorem ex_h4 : ColMajorOf exX4 exAX := by
+  refine ⟨rfl, ?_, ?_, ?_⟩
+  · intro v hv
+    simp only [exX4, List.mem_cons, List.not_mem_nil, or_false] at hv
+    rcases hv with rfl | rfl <;> simp [SortedVec, Pomerol.Properties.C17.Sorted, storedIdx]
+  · intro v hv i hi
+    simp only [exX4, List.mem_cons, List.not_mem_nil, or_false] at hv
+    rcases hv with rfl | rfl <;> simp [storedIdx] at hi <;> omega
+  · intro i j
+    fin_cases i <;> fin_cases j <;> simp [exAX, exX4, vec, coeffIn, List.lookup]
+
+/-- NON-VACUITY: the hypotheses of `sparse_enumeration_is_full_sum` hold for this instance, and its
+conclusion with `g = 1` is the trace of the product of the four matrices: the sum of the products over
+the visited world lines is 48640 = 1885 + 2737 + 3857 + 8602 + 12122 + 19437. -/
+example : ∃ wls, computeAsSource (fun _ _ _ _ => true) exO1 exO2 exO3 exX4 = .ok wls ∧
+    (wls.map fun wl => wl.2.2.2.2).sum = 48640 := by
+  obtain ⟨wls, hw, hs⟩ := sparse_enumeration_is_full_sum exA1 exA2 exA3 exAX exO1 exO2 exO3 exX4
+    ex_h1 ex_h2 ex_h3 ex_h4 (fun _ _ _ _ => 1)
+  refine ⟨wls, hw, ?_⟩
+  simp only [one_mul] at hs
+  rw [hs]
+  simp [Fin.sum_univ_two, exA1, exA2, exA3, exAX]
+  norm_num
+
+/-- the same instance over the integers, where the model can be run by the kernel: the six visited world
+lines, in the order of the source -/
+example : computeAsSource (K := ℤ) (fun _ _ _ _ => true) [[(0, 1), (1, 2)], [(1, 3)]]
+    [[(0, 5)], [(0, 7), (1, 11)]] [[(1, 13)], [(0, 17), (1, 19)]] [[(0, 23), (1, 29)], [(1, 31)]]
+    = .ok [(0, 0, 0, 1, 1885), (0, 0, 1, 0, 2737), (0, 0, 1, 1, 3857), (0, 1, 1, 0, 8602),
+      (0, 1, 1, 1, 12122), (1, 1, 1, 1, 19437)] := by
+  decide
+
+end enumeration
 
 end Pomerol.Properties.C02
